@@ -18,3 +18,4 @@ def run(rep, tier):
         rep.call(roundbudget.budget, rep, prog, "C02.round-budget", {"x86": 110, "arm": 60, "wasm": 55}.get(cfg, 40))
         if cfg.startswith("x86"):
             rep.call(lanepair.pairing, rep, prog, "C02.lane-pairing")
+            rep.call(lanepair.stores, rep, prog, "C02.lane-store")
